@@ -70,6 +70,20 @@ H = [
  ("ir.py", "class _ModuleList", "            v._ir = None\n            v._remove_from_uuid_cache(self._node._local_uuid_cache)\n",
   "            v._remove_from_uuid_cache(self._node._local_uuid_cache)\n            v._ir = None\n", ["C03", "C04"]),
  ("auxdata.py", "from typing import", None, (r"\b_lazy_container\b", "_pending"), ["C14", "C08"]),
+ ("cfg.py", "def discard(self, edge", "        if key is not None:\n            self._nxg.remove_edge(edge.source, edge.target, key=key)",
+  "        if key is None:\n            return\n        self._nxg.remove_edge(edge.source, edge.target, key=key)", ["C11"]),
+ ("cfg.py", "def out_edges", None, (r"\bl\b", "lbl"), ["C11"]),
+ ("symbol.py", "def referent(self) -> typing.Optional[Block]", "        if isinstance(self._payload, Block):\n            return self._payload\n        return None",
+  "        payload = self._payload\n        return payload if isinstance(payload, Block) else None", ["C10", "C18"]),
+ ("byteinterval.py", "def symbolic_expressions_at(", "            if self.address + i in addrs:", "            if i + self.address in addrs:", ["C13"]),
+ ("byteinterval.py", "def symbolic_expressions_at(", "        if self.address is None:\n            return\n\n        addrs = get_desired_range(addrs)",
+  "        base = self.address\n        if base is None:\n            return\n\n        addrs = get_desired_range(addrs)", ["C13"]),
+ ("module.py", "class _NodeSet", "            v._module = None\n            self._node._index_discard(v)\n",
+  "            self._node._index_discard(v)\n            v._module = None\n", ["C10", "C04"]),
+ ("module.py", "class _NodeSet", "            if self._node.ir is not None:\n                v._add_to_uuid_cache(self._node.ir._local_uuid_cache)\n            return super().add(v)",
+  "            owner_ir = self._node.ir\n            if owner_ir is not None:\n                v._add_to_uuid_cache(owner_ir._local_uuid_cache)\n            return super().add(v)", ["C03", "C16"]),
+ ("util.py", "class SetWrapper", "    def discard(self, v: T) -> None:\n        return self._data.discard(v)",
+  "    def discard(self, v: T) -> None:\n        self._data.discard(v)", ["C16"]),
  ("module.py", "def _to_protobuf", "        proto_module.rebase_delta = self.rebase_delta\n"
   "        proto_module.sections.extend(s._to_protobuf() for s in self.sections)\n",
   "        proto_module.sections.extend(s._to_protobuf() for s in self.sections)\n"
